@@ -43,7 +43,7 @@ def plan(tier, seed):
     cases = [{"kind": "stage", "seed": seed, "batch": b, "n": 5} for b in range(n)]
     for k in range(24 if tier == "quick" else 400):
         cases.append({"kind": "e2e", "seed": seed, "k": k})
-    for k in range(16 if tier == "quick" else 300):
+    for k in range(30 if tier == "quick" else 300):
         cases.append({"kind": "vcf", "seed": seed, "k": k})
     return cases
 
@@ -403,6 +403,9 @@ def _vcf_case(res, case):
             want[refseq_of(ga, m)] += 1
     snps = sorted(refseq_of(ga, m) for m in ga.mutations if ">" in m[1] and len(m[1]) == 3)
     flip = rng.choice(snps) if snps and rng.random() < 0.8 else None
+    carried_snps = sorted(w for w in snps if want.get(w))
+    if flip and carried_snps and rng.random() < 0.7:
+        flip = rng.choice(carried_snps)  # mostly a site where the sample shows the assembly's (REF) base
     flip_build = rng.choice(["hg19", "hg38"])
     outs = []
     desc = {"db": dba.label, "strands": [dba.gene.strand, dbb.gene.strand], "copies": [list(c) for c in copies],
